@@ -188,6 +188,10 @@ def c12_programs(seed, tier):
             if w in (0, 64) and neg:
                 continue
             out.append(prog(f"w{w}{'n' if neg else 'p'}", [new(), pc(width_proto(w, neg), 19 if tier == "quick" else 41, seed=seed * 100 + w), FIN]))
+    # very wide points (few per packet) next to 1..3-bit records: a packet holds less than one byte of the narrow streams,
+    # which nevertheless stay contiguous across packets
+    vwide = xyz("double") + [rec(f"d{i}", "double", ns="ext") for i in range(1100)] + [rec("flag", "int", 0, 1, ns="ext"), rec("tri", "int", -1, 5, ns="ext"), rec("rowIndex", "int", 0, 1)]
+    out.append(prog("very_wide_narrow_streams", [new(), {"op": "ext", "ns": "ext", "url": "http://example.com/ext"}, pc(vwide, 23 if tier == "quick" else 60, seed=seed + 9), FIN]))
     # wide prototype: packet boundary reached with few points, so streams are cut mid-value
     wide = xyz("double") + [rec(f"f{i}", "int", -3, (1 << (3 + 5 * i % 60)) , ns="ext") for i in range(12)]
     for n in ([700] if tier == "quick" else [700, 1500]):
@@ -404,6 +408,8 @@ def c10_programs(seed, tier):
     # content added after a finalize, then finalized again (the first XML becomes dead space); the GUID length shifts the XML end through all residues mod 4
     for g in range(4):
         out.append(prog(f"finalize_more_pc_{g}", [new("g" * (5 + g)), pc(p0, 3), FIN, pc(small_protos()[1], 5001 if g == 0 else 4, guid="later"), FIN]))
+        out.append(prog(f"finalize_more_image_{g}", [new("g" * (5 + g)), image([rep("visual", 30, salt=1, mask=5)], guid="first"), pc(p0, 3), FIN,
+                                                     image([rep("visual", 90, salt=4), rep("spherical", 200, salt=6, pw=0.1, ph=0.1)], guid="second"), FIN]))
         out.append(prog(f"finalize_more_blob_{g}", [new("g" * (5 + g)), blob(10, 1), FIN, blob(33, 2), image([rep("visual", 21, mask=3)]), FIN]))
     out.append(prog("empty_guid", [new(""), pc(p0, 3), FIN]))
     out.append(prog("empty_pc_guid", [new(), pc(p0, 3, guid=""), FIN]))
